@@ -9,7 +9,9 @@ at client-quiescent points.
 Binance families: `binance` (public trade stream + SPOT user-data stream, full alphabet), `binance-cross` and
 `binance-isolated` (the cross-margin / isolated-margin user-data stream, the part of the alphabet that matters to a
 user-data stream), `binance-two` (spot AND cross-margin user-data streams on the one shared client from the start, an
-isolated-margin one registered later; messages and listen-key expiry per stream). The fake server records which endpoint
+isolated-margin one registered later; messages and listen-key expiry per stream). In these three families `expired_late` is
+a listen-key expiry followed, 0.03 s later and only while no replacement key has been subscribed yet (i.e. the reply to the
+listen-key creation is slow), by one more user-data message on the expired stream. The fake server records which endpoint
 (and symbol) issued each listen key and which key / endpoint / symbol each keep-alive PUT names.
 """
 import asyncio
@@ -30,7 +32,7 @@ from worlds.ws import Env, FakeSession
 PROPERTY = "C18"
 RULE = ("case = (client family, sequence of environment actions: channel message, message for an unknown channel, garbage "
         "text, binary frame, subscription ack / error, reconnect request, clean close, abrupt drop, listen-key expiry (per "
-        "user-data stream), next connect fails, next HTTP call (listen key / token) fails, next HTTP call or next send is "
+        "user-data stream; also followed by one more message on the expired stream while its replacement is pending), next connect fails, next HTTP call (listen key / token) fails, next HTTP call or next send is "
         "slow, register a new channel / a further user-data stream, let time pass); every sequence up to the depth is "
         "executed on the real client. Distinct = distinct cases; non-trivial = more than one connection was made or a "
         "channel was registered / re-subscribed while connected.")
@@ -53,6 +55,9 @@ ASSUMPTIONS = [
     "unknown or error message on it, or after a scripted HTTP failure during its lifetime; channel messages, acks, listen-key "
     "expiry, registrations, slow replies and the passing of time are no reason (after listenKeyExpired, with no HTTP failure "
     "pending, the SAME connection must carry the new SUBSCRIBE within 0.24 s)",
+    "a real server can still publish a message that was in flight on a stream whose key it has just declared expired, until "
+    "the replacement is subscribed: that is no reason to give the connection up; whether such a message is forwarded as an "
+    "event is left open",
     "whether the listenKeyExpired notice itself is forwarded to the user-data event source is left open by the statement: "
     "both are accepted",
 ]
@@ -83,9 +88,9 @@ ACTIONS = {
                 "fail_connect", "slow_send", "add_channel"],
     "binance": ["tick", "msg_trade", "msg_user", "expired", "garbage", "unknown_stream", "ack", "sub_error", "close", "drop",
                 "fail_connect", "fail_http", "slow_http", "add_channel"],
-    "binance-cross": ["tick", "msg_user", "expired", "close", "drop", "fail_connect", "fail_http", "slow_http", "add_channel"],
-    "binance-isolated": ["tick", "msg_user", "expired", "close", "drop", "fail_connect", "fail_http", "slow_http", "add_channel"],
-    "binance-two": ["tick", "msg_user", "msg_user2", "expired", "expired2", "add_user3", "close", "drop", "fail_http", "slow_http"],
+    "binance-cross": ["tick", "msg_user", "expired", "expired_late", "close", "drop", "fail_connect", "fail_http", "slow_http", "add_channel"],
+    "binance-isolated": ["tick", "msg_user", "expired", "expired_late", "close", "drop", "fail_connect", "fail_http", "slow_http", "add_channel"],
+    "binance-two": ["tick", "msg_user", "msg_user2", "expired", "expired_late", "expired2", "add_user3", "close", "drop", "fail_http", "slow_http"],
     "bitstamp-public": ["tick", "msg_trades", "msg_trades2", "msg_orders", "reconnect_req", "bts_error", "sub_failed", "garbage", "unknown_event",
                         "close", "drop", "fail_connect", "slow_send", "add_channel"],
     "bitstamp-private": ["tick", "msg_trades", "msg_trades2", "msg_orders", "reconnect_req", "sub_failed", "garbage", "close", "drop",
@@ -363,7 +368,8 @@ def run_case(fam, actions):
                                              "re-subscribed on the live connection"))
                         continue
                 elif binance:
-                    uname = {"msg_user": "user", "msg_user2": "user2", "expired": "user", "expired2": "user2"}.get(a)
+                    uname = {"msg_user": "user", "msg_user2": "user2", "expired": "user", "expired2": "user2",
+                             "expired_late": "user"}.get(a)
                     if a == "msg_trade":
                         ws.deliver("text", json.dumps({"stream": tstream, "data": {"e": "trade", "E": 1, "s": "BTCUSDT", "t": 1,
                                                                                    "p": "1", "q": "1", "b": 1, "a": 2, "T": 1, "m": True}}))
@@ -373,7 +379,7 @@ def run_case(fam, actions):
                         if key:  # the server publishes user data only on a key that is subscribed on this connection
                             ws.deliver("text", json.dumps({"stream": key, "data": {"e": "outboundAccountPosition", "E": 1, "u": 1, "B": []}}))
                             sent_msgs[uname] += 1
-                    elif a in ("expired", "expired2"):
+                    elif a in ("expired", "expired2", "expired_late"):
                         key = live_key(ws, uname)
                         if key:
                             interesting[0] = True
@@ -383,7 +389,20 @@ def run_case(fam, actions):
                             ws.deliver("text", json.dumps({"stream": key, "data": {"e": "listenKeyExpired", "E": 1}}))
                             # whether the administrative notice is forwarded as a user-data event is left open
                             sent_msgs[uname + "-maybe"] += 1
-                            await asyncio.sleep(4 * STEP)
+                            waited = 0.0
+                            if a == "expired_late":
+                                # a message that was already in flight: one more user-data message on the expired stream while
+                                # the reply to the listen-key creation it triggered is still pending (slow HTTP)
+                                waited = 0.5 * STEP
+                                await asyncio.sleep(waited)
+                                replaced = any(env.key_owner.get(k) == users[uname] and k not in env.expired_at
+                                               for _, m in ws.sent[n_before:] if m.get("method") == "SUBSCRIBE" for k in m["params"])
+                                if env.live() is ws and not replaced:
+                                    ws.deliver("text", json.dumps({"stream": key, "data": {"e": "outboundAccountPosition", "E": 1,
+                                                                                           "u": 1, "B": []}}))
+                                    # data on a key the server has declared expired: forwarding it is left open
+                                    sent_msgs[uname + "-maybe"] += 1
+                            await asyncio.sleep(4 * STEP - waited)
                             w2 = env.live()
                             if not failing and (w2 is None or w2.idx != idx):
                                 # nothing was scripted between the notice and now: the connection the notice arrived on
